@@ -69,9 +69,10 @@ def normalize_axes(
     if shape is not None:
         if min(axes) < 0:
             axes = tuple([len(shape) + a if a < 0 else a for a in axes])
-        if max(axes) >= len(shape):
+        if max(axes) >= len(shape) or min(axes) < 0:
             raise ValueError(
-                f"Invalid axes {axes} specified; each axis must be less than `len(shape)`={len(shape)}."
+                f"Invalid axes {axes} specified; each axis must be in the range "
+                f"[-len(shape), len(shape)) with `len(shape)`={len(shape)}."
             )
     if len(set(axes)) != len(axes):
         raise ValueError(f"Duplicate value in axes {axes}; each axis must be unique.")
